@@ -53,6 +53,9 @@ impl Prop for C09 {
 pub enum Sc10 {
     Client(CScenario),
     Server(SScenario),
+    /// client shutdown whose first dispatch poll after the last handle drop runs on a nearly exhausted
+    /// cooperative-scheduling budget
+    ClientCoop { sc: CScenario, budget: u8 },
 }
 pub struct C10;
 impl Prop for C10 {
@@ -76,14 +79,16 @@ impl Prop for C10 {
     }
     fn strategy(&self, _tier: Tier) -> BoxedStrategy<Sc10> {
         prop_oneof![
-            super::c10::strategy_client().prop_map(Sc10::Client),
-            sstrat(&sprops::c10s_profile()).prop_map(Sc10::Server),
+            3 => super::c10::strategy_client().prop_map(Sc10::Client),
+            4 => sstrat(&sprops::c10s_profile()).prop_map(Sc10::Server),
+            1 => (super::c10::strategy_client(), 0u8..6).prop_map(|(sc, budget)| Sc10::ClientCoop { sc, budget }),
         ]
         .boxed()
     }
     fn run_case(&self, sc: &Sc10) -> CaseResult {
         match sc {
             Sc10::Client(c) => super::c10::check_client(c),
+            Sc10::ClientCoop { sc, budget } => super::c10::check_client_opt(sc, Some(*budget)),
             Sc10::Server(sc) => sprops::c10s_check(sc),
         }
     }
